@@ -542,7 +542,8 @@ class Vector(AutoSerialize):
                         out.extend(_flatten_cells(sub))
                     return out
 
-                value = _flatten_cells(value._data)
+                # copy, so that source and destination cells do not share arrays
+                value = [a.copy() for a in _flatten_cells(value._data)]
 
             # For fancy indexing, value should be a list of arrays
             if not isinstance(value, list):
